@@ -43,6 +43,7 @@ type progGen struct {
 	haveThunkMaker bool
 	thunks         []string
 	files          map[string]string // simulated-disk files referenced by (source ...)
+	noInclude      bool              // (include is compiled in place: not for programs whose files change between forms)
 	havePkg        bool
 	// swarm weights
 	w []int
@@ -283,6 +284,16 @@ func (g *progGen) e(d int) string {
 	return g.atom()
 }
 
+// selfCtx: a place for an int-valued form inside a function body, the form's value being the context's value
+// up to arithmetic (the generators only need an int back)
+var selfCtxs = []string{"%s", "%s", "(+ 1 %s)", "(let [p 1 q %s] q)", "(letseq [p 1 q %s] (+ p q))", "(aget [1 %s] 1)", "(begin 1 %s)", "(newScope %s)",
+	"(first (list %s 2))", "(hget (hash a: %s) a:)", "(and true %s)", "(or false %s)", "(cond true %s 0)", "(let [p %s] p)", "((fn [z] z) %s)", "{ 1 + %s }", "(* 1 %s)",
+	"(let [p 1] (let [q %s] (+ p q)))", "(aget (array 1 %s) 1)", "(len (list %s))"}
+
+func (g *progGen) selfCtx(inner string) string {
+	return fmt.Sprintf(g.r.Pick(selfCtxs), inner)
+}
+
 func (g *progGen) infixOperand(d int) string {
 	switch g.r.Intn(4) {
 	case 0:
@@ -364,7 +375,19 @@ func (g *progGen) loopCtl(iv string) string {
 
 // loopCtl2: break/continue reached through and/or operands and nested scopes
 func (g *progGen) loopCtl2(iv string) string {
-	switch g.r.Intn(6) {
+	switch g.r.Intn(10) {
+	case 5:
+		// in a cond predicate
+		return fmt.Sprintf("(let [z %s] (cond (and (== z 1) (break)) 1 2))", iv)
+	case 6:
+		return fmt.Sprintf("(let [z %s] (cond (or (!= z 0) (continue)) 1 2))", iv)
+	case 7:
+		// in a binding, an argument, an element
+		return fmt.Sprintf("(letseq [z %s y (cond (== z 1) (break) 0)] y)", iv)
+	case 8:
+		return fmt.Sprintf("(newScope (+ 1 (cond (== %s 1) (continue) 0)))", iv)
+	case 9:
+		return fmt.Sprintf("(let [z %s] [1 (cond (== z 2) (break) 0)])", iv)
 	case 0:
 		return fmt.Sprintf("(let [z %s] (and (== z 1) (continue) 1))", iv)
 	case 1:
@@ -450,6 +473,10 @@ var failingCores = []string{
 	"(undefinedFn 1)", "undefinedSym", "(+ 1 \"a\")", "(aget [1 2] 7)", "(assert false)", "(hget (hash a: 1) zz:)",
 	"(first 3)", "(let)", "(for [])", "(cond 1 2)", "(/ 1 0)", "(def)", "((fn [a] a))", "(hset 3 a: 1)", "(fn)", "(str2sym 5)",
 	"(let [a] 1)", "(continue nosuch:)", "(mdef a)", "(aget 5 0)", "(hf)", "(quote 1 2)", "(quote)",
+	// comparisons of what cannot be compared, at depth
+	"(== [1 [2 \"a\"]] [1 [2 3]])", "(< \"a\" 1)", "(== (hash a: 1) 1)", "(== [1 \"a\"] [1 2])",
+	// a self-call in tail position with the wrong number of arguments
+	"(begin (defn wa9 [a b] (cond (== a 0) b (wa9 (- a 1) b 99))) (wa9 2 1))", "(begin (defn wb9 [a b] (cond (== a 0) b (wb9 (- a 1)))) (wb9 2 1))",
 }
 
 func (g *progGen) failingForm() string {
@@ -574,13 +601,17 @@ func (g *progGen) topForm() vmForm {
 			}
 			body = fmt.Sprintf("(+ %s %s %s)", forced, rest, g.probe())
 			params = append([]string{"#a"}, params[1:]...)
-		} else if g.r.Chance(0.2) {
-			// recursive, non-tail and tail variants
-			if ar == 1 {
-				body = fmt.Sprintf("(cond (<= a 0) %s (+ 1 (%s (- a 1))))", g.probe(), name)
-			} else {
-				body = fmt.Sprintf("(cond (<= a 0) b (%s (- a 1) (+ b %s)))", name, g.probe())
+		} else if g.r.Chance(0.25) {
+			// recursive: the self-call sits in a seeded context (argument, binding, element, operand, branch, bare =
+			// tail position), and the conditional around it in another one
+			self := fmt.Sprintf("(%s (- a 1))", name)
+			base := g.probe()
+			if ar == 2 {
+				self = fmt.Sprintf("(%s (- a 1) (+ b %s))", name, g.probe())
+				base = "b"
 			}
+			rec := fmt.Sprintf("(cond (<= a 0) %s %s)", base, g.selfCtx(self))
+			body = g.selfCtx(rec)
 			f.arity = ar
 		} else {
 			g.usedEff = g.r.Chance(0.2)
@@ -702,6 +733,20 @@ func (g *progGen) topForm() vmForm {
 			names = append(names, fmt.Sprintf("%q", name))
 		}
 		text = fmt.Sprintf("(source %s)", strings.Join(names, " "))
+		switch g.r.Intn(6) {
+		case 0:
+			text = fmt.Sprintf("(source [%s])", strings.Join(names, " "))
+		case 1:
+			text = fmt.Sprintf("(source (list %s))", strings.Join(names, " "))
+		case 2:
+			if !g.noInclude {
+				text = fmt.Sprintf("(include %s)", strings.Join(names, " "))
+			}
+		case 3:
+			if !g.noInclude {
+				text = fmt.Sprintf("(include [%s])", strings.Join(names, " "))
+			}
+		}
 		if g.r.Chance(0.3) {
 			text = fmt.Sprintf("(+ 1 (let [q 2] %s))", text)
 		}
@@ -776,6 +821,20 @@ var declForms = []string{
 	"(for outer: [(def i 0) (< i 3) (def i (+ i 1))] (newScope (for inner: [(def j 0) (< j 3) (def j (+ j 1))] (cond (== j 1) (break outer:) 0))))",
 	"(def rh%d (hash a: 1 b: 2)) (for outer: [(def i 0) (< i 2) (def i (+ i 1))] (range k v rh%d (cond (== v 2) (continue outer:) 0)))",
 	"(def zc%d 1) (++ zc%d) (+= zc%d 2) zc%d",
+	// self-calls in tail position of typed functions (by name and by position), of functions with lazy and optional formals
+	"(func cn%d [n:int64] [r:int64] (cond (== n 0) 0 (cn%d n: (- n 1)))) (cn%d 3) (cn%d n:2)",
+	"(func co%d [n:int64 acc:int64] [r:int64] (cond (== n 0) acc (co%d acc: (+ acc 1) n: (- n 1)))) (co%d 3 0)",
+	"(defn vo%d [a & r] (cond (== a 0) (len r) (vo%d (- a 1) 7 8))) (vo%d 2) (vo%d 1 1 1 1)",
+	// syntax-quote templates as whole top-level forms
+	"(def ql%d (quote (1 2 3))) ^~@ql%d", "(def qm%d 5) ^~qm%d", "(def qn%d (list 1 2)) ^(~@qn%d)", "(def qo%d [1 2]) ^[~@qo%d 3]", "(def qp%d 2) ^[~qp%d ~qp%d]", "(def qq%d (list 7 8)) (+ 1 (first ^(~@qq%d)))",
+	// anonymous typed functions, inline
+	"((func [a:int64] [r:int64] (return (+ a 1))) 2)", "(def af%d (func [a:int64] [r:int64] (return a))) (af%d 1) (+ 1 (af%d a:2))", "(map (func [a:int64] [r:int64] (return (+ a 1))) [1 2])",
+	"(let [q 1] ((func [a:int64] [r:int64] (return (+ a q))) 2))",
+	// packages declared inside loops and functions, loop control and self-calls inside package bodies
+	"(defn pf%d [] (for [(def i 0) (< i 2) (def i (+ i 1))] (package \"pp\" { A := 1 }) (cond (== i 0) (continue) 0)) 7) (pf%d)",
+	"(defn pg%d [] (for [(def i 0) (< i 2) (def i (+ i 1))] (package \"pq\" { A := 1; (cond (== A 1) (break) 0) })) 7) (pg%d)",
+	"(defn pt%d [n] (package \"pr\" { (cond (<= n 0) 0 (pt%d (- n 1))) })) (pt%d 2)",
+	"(for [(def i 0) (< i 2) (def i (+ i 1))] (def pw%d (package \"pw\" { W := i })))",
 }
 
 func (g *progGen) declForm() string {
